@@ -174,6 +174,7 @@ class _Special:
         self.reads_inverted = False
         self.args_consumed = False
         self.value_read = False
+        self.combiner_joins = False
         self.tainted: set[str] = set()   # local names that carry gate_args_copy()
         self.target_lists: set[str] = set()
 
@@ -249,6 +250,7 @@ def _special_loop(sp: _Special, loop: ast.For):
             if [_u(a) for a in c.args[:3]] != ["b", "current_paulis", "invert"]:
                 raise Unsupported("mpp call arguments: " + _u(c))
             _sink_call(sp, c)
+            sp.combiner_joins = True
             continue
         raise Unsupported("statement in special-branch loop: " + _u(st)[:100])
 
@@ -533,6 +535,10 @@ def translate(repo_src: Path) -> str:
             unknown_raises = True
             k += 1
             continue
+        if _u(st.test) == "name not in GATE_TABLE" and len(st.body) == 1 and isinstance(st.body[0], ast.Continue) and not st.orelse:
+            unknown_raises = False       # unknown names are dropped silently: recorded, the theorem then fails
+            k += 1
+            continue
         # tag renames: if name == "S" and instruction.tag == "T": name = "T" elif ...
         cur, ok = st, True
         ren = []
@@ -628,12 +634,12 @@ def translate(repo_src: Path) -> str:
         f"Definition tag_renames : list (string * string * string) := {_lst(f'({coq_string(a)}, {coq_string(t)}, {coq_string(c)})' for a, t, c in tag_renames)}.",
         f"Definition parametric_tag_branch : bool := {_b(parametric)}.",
         "(* special-cased names: per-target rules in source order, how the callee uses `.value`, whether",
-        "   is_inverted_result_target is read, whether gate_args_copy() reaches the callee, whether an empty target list raises *)",
+        "   is_inverted_result_target is read, whether a combiner keeps the product open, whether gate_args_copy() reaches the callee, whether an empty target list raises *)",
         "Definition specials : list special := [",
     ]
     rows = []
     for sp in specials:
-        rows.append(f"  mkSpecial {_lst(coq_string(n) for n in sp.names)} {_lst(sp.rules)} {sp.sink} {_b(sp.reads_inverted)} "
+        rows.append(f"  mkSpecial {_lst(coq_string(n) for n in sp.names)} {_lst(sp.rules)} {sp.sink} {_b(sp.reads_inverted)} {_b(sp.combiner_joins)} "
                     f"{_b(sp.args_consumed)} {_b(sp.rejects_empty)}")
     L.append(";\n".join(rows))
     L += [
